@@ -189,8 +189,11 @@ def parse_hint(content: bytes) -> Optional[Tuple[int, str]]:
         return None
     if not t:
         return None
-    if t.isdigit():
-        return int(t), f"v{t}.metadata.json"
+    if t.isascii() and t.isdigit():
+        try:
+            return int(t), f"v{t}.metadata.json"
+        except ValueError:      # more digits than int() converts
+            return None
     m = _META_RE.match(t)
     if m:
         return int(m.group(1)), t
